@@ -210,6 +210,10 @@ def align_cases(thorough):
                                     yield {'axis': list(ax), 'angle_deg': ang, 'trans': list(tr), 'flip': flip,
                                            'x_layout': xi, 'p_layout': pi, 'noise': noise, 'constellation': ci,
                                            'envelope': True}
+                                    if ci == 0 and noise == 0 and flip in ('none', 'flipZ'):
+                                        yield {'axis': list(ax), 'angle_deg': ang, 'trans': list(tr), 'flip': flip,
+                                               'x_layout': xi, 'p_layout': pi, 'noise': noise, 'constellation': ci,
+                                               'envelope': True, 'arrays': True}
     # corners of the envelope (close to 30 degrees about a body diagonal, 3 m along a diagonal): where the optimiser
     # needs the most iterations
     r3 = 3.0 / math.sqrt(3.0)
@@ -272,7 +276,7 @@ def build_align_inputs(case):
 def align_class(case):
     if not case['envelope']:
         return 'beyond_30deg'
-    return '%s:%s' % (case['flip'], 'noisy' if case['noise'] else 'exact')
+    return '%s:%s%s' % (case['flip'], 'noisy' if case['noise'] else 'exact', ':arrays' if case.get('arrays') else '')
 
 
 def case_text(case):
@@ -288,8 +292,13 @@ def check_align(p, case):
     cls = align_class(case)
     rp = dict(case, part='align')
     origin, x_axis, xy_plane, bs_poses, bs_ref, M, cost_m = build_align_inputs(case)
+    if case.get('arrays'):
+        # the samples as 2-D float arrays (legal ArrayLike; what a caller that collected them with numpy passes)
+        x_axis = np.array(x_axis, dtype=float)
+        xy_plane = np.array(xy_plane, dtype=float)
+        origin = np.array(origin, dtype=float)
     before = snap_all(origin, x_axis, xy_plane, bs_poses)
-    txt = case_text(case)
+    txt = case_text(case) + (' (samples as float arrays)' if case.get('arrays') else '')
     import scipy.optimize
     runs = []
     real_lsq = scipy.optimize.least_squares
